@@ -102,7 +102,7 @@ func (w *World) Atlas(extraEnv []string, args ...string) CmdResult {
 	err := cmd.Run()
 	res := CmdResult{Stdout: so.String(), Stderr: se.String()}
 	if ctx.Err() != nil {
-		simkit.Harnessf("atlas %v: watchdog timeout (stderr: %s)", args, firstN(se.String(), 400))
+		simkit.Harnessf("watchdog timeout: atlas %v (stderr: %s)", args, firstN(se.String(), 400))
 	}
 	var ee *exec.ExitError
 	switch {
@@ -113,7 +113,7 @@ func (w *World) Atlas(extraEnv []string, args ...string) CmdResult {
 			if ws.Signal() == syscall.SIGKILL {
 				res.Killed = true
 			} else {
-				simkit.Harnessf("atlas %v: died from signal %v", args, ws.Signal())
+				simkit.Harnessf("died from signal %v: atlas %v", ws.Signal(), args)
 			}
 			res.Exit = 128 + int(ws.Signal())
 		} else {
